@@ -1419,7 +1419,15 @@ def tdms_check(run):
                     for f in feats:
                         if fail:
                             break
-                        if f not in dr.features_innate:
+                        # (raw h5py: this untagged build's "dclab 0.0"
+                        # brand makes dclab hide e.g. inert_ratio_cvx of
+                        # wide-ROI files as defective when re-opening)
+                        with h5py.File(out, "r") as hraw:
+                            present = f in hraw["events"]
+                            rawval = hraw["events"][f][()] if present and \
+                                isinstance(hraw["events"][f], h5py.Dataset) \
+                                and hraw["events"][f].ndim == 1 else None
+                        if not present:
                             fail = "feature %s missing" % f
                             break
                         if f == "trace":
@@ -1435,7 +1443,8 @@ def tdms_check(run):
                                     break
                         else:
                             a = np.asarray(ds[f][:])[idx]
-                            b = np.asarray(dr[f][:])
+                            b = np.asarray(rawval if rawval is not None
+                                           else dr[f][:])
                             if not np.array_equal(a, b, equal_nan=True):
                                 fail = "feature %s differs" % f
                                 bad = a != b
